@@ -23,3 +23,27 @@ check('C17', 'exploration',
       'Runtime contracts of the traversal generators and name lookups on a stated bounded circuit/naming space (exhaustive small family + seeded).',
       'bounded only (generators over an object graph are outside the VC generator); oracle = spec-side graph search',
       'bounded runtime-contract stand-in (no deductive part within reach)', 'DESIGN.md 5-C17')
+check('C03', 'other',
+      'Proved (unbounded, all LUTs / operand waveforms / capacities >= 4 / delays >= 0 / dataset modes): _wave_eval output is well formed, its final value (parity) and its initial value are the LUT of the operand final / initial values also on the overflow path, frame and lane clauses, termination; capture and assign kernels. Bounded: composition over the op list and translation on real runs against the netlist oracle.',
+      'extended-real model of float32 time stamps, integers mathematical, sd = 0; composition/translation/s_to_c bounded only',
+      'contract-based deductive verification (ast->z3 VCs, quantified loop invariant with term-collection instantiation) + bounded stand-in', 'DESIGN.md 5-C03')
+check('C04', 'exploration',
+      'Bounded only: STA window, rigid shift, power-of-two scaling, strict monotonicity on real runs over a stated space (dyadic grid).',
+      'no deductive part discharged for this property (provenance invariant and relational two-run clauses are outside the built VC generator)',
+      'bounded runtime-contract stand-in with a static-timing oracle', 'DESIGN.md 5-C04')
+check('C05', 'other',
+      'Proved: per-primitive lemmas L-act and L-8v2v over the spec (finite, z3); they rely on Q2/Q5 of _wave_eval (C03) and the 8-valued loop contract (C02). Bounded: (LogicSim(m=8), WaveSim) pairs on real runs.',
+      'circuit-level lifting and the no-transition clause are bounded evidence / paper induction',
+      'finite lemmas in z3 over the spec + bounded stand-in', 'DESIGN.md 5-C05')
+check('C06', 'other',
+      'Proved: lane-locality of every kernel access, dataset selection prelude, capture CPU == GPU fold, assign kernel encoding, cdiv. Bounded: bit-identity across options / classes / lanes / sims=k / dataset modes on real runs.',
+      'relational option-independence clauses are bounded only; mock GPU only',
+      'contract-based deductive verification of the kernels + bounded stand-in for the relational clauses', 'DESIGN.md 5-C06')
+check('C07', 'other',
+      'Proved: per-thread read/write frames of _wave_eval (only operand/own regions read, only own region of own lane written), cdiv. Bounded: SchedValid + per-level disjointness on real SimOps, permuted ops per level and shuffled GPU threads compared bit by bit.',
+      'commutation lemma on paper; levelisation loop bounded only; mock GPU only',
+      'contract-based frames (pyvc) + bounded stand-in for schedules', 'DESIGN.md 5-C07')
+check('C13', 'other',
+      'Proved: wave_capture_cpu and wave_capture_gpu against folds over the waveform (init, EAT, LST, final, value just before T, overflow marker), Q4 rise/fall counts and Q6 overflow propagation of _wave_eval. Bounded: capacity-independence when the indicator is clear, abuf totals, a_ctrl plumbing.',
+      'sd = 0; extended-real time model; accumulation loop and capacity relation bounded only',
+      'contract-based deductive verification with ghost fold functions + bounded stand-in', 'DESIGN.md 5-C13')
